@@ -240,6 +240,7 @@ func runC02(c *Ctx) {
 		c.Check(bad == "", "C02.R9", shortFn(ihl)+": enabledOptions &^ hostLevelMask == 0", ihl.Pos(), fmt.Sprintf("decision evaluated on %d option sets (none, every single option, every pair)", n), bad)
 	}
 	importRules(c, runC13, map[string]string{"C13.R2": "C02.R7"}, nil)
+	importRules(c, runC04, map[string]string{"C04.R5": "C02.R15", "C04.R12": "C02.R15"}, map[string]string{"C02.R15": "the $denyallow / $domain membership test and the $client values of the rules the DNS engine serves are the documented ones (shared with C04.R5, C04.R12)"})
 	importRules(c, runC04, map[string]string{"C04.R6": "C02.R13"}, map[string]string{"C02.R13": "a $denyallow rule is exempt for addresses only: a host name that merely looks like an address is still judged by the domain list (shared with C04.R6)"})
 	importRules(c, runC12, map[string]string{"C12.R7": "C02.R14"}, map[string]string{"C02.R14": "a hosts line reaches the engine whole, however many names it lists (shared with C12.R7)"})
 	importRules(c, runC01, map[string]string{"C01.R2": "C02.R11", "C01.R3": "C02.R11", "C01.R6": "C02.R11"}, map[string]string{"C02.R11": "the network half of a DNS answer is the network engine's lookup: every table consulted, insert and probe side hash alike, tables decline only exact duplicates (shared with C01.R2/R3/R6)"})
